@@ -22,7 +22,7 @@ EXTRACT = "coq/C03/Extract_C03.v"
 DRIVER = "props/C03/driver.ml"
 PROGS = {"c03sim": ["props/C03/unit.cpp"]}
 
-MODELLED = ("restraint", "histogram", "extlag", "abmd", "abf", "meta")
+MODELLED = ("restraint", "histogram", "extlag", "abmd", "abf", "meta", "eabf", "histrestraint")
 
 # (family, cases quick, cases thorough, history length quick, thorough)
 PLAN = [
@@ -34,6 +34,7 @@ PLAN = [
     ("meta", 14, 160, 14, 40),
     ("eabf", 6, 60, 12, 40),
     ("histrestraint", 3, 30, 10, 30),
+    ("multi", 4, 40, 10, 30),
     ("runave", 2, 10, 10, 20),
     ("alb", 2, 10, 10, 20),
     ("opes", 4, 30, 12, 24),
@@ -100,7 +101,10 @@ def tie_case(c, runs, d, model_exe):
     U = runs.get("U")
     if U is None or len(U["steps"]) != len(c["pos"]):
         return bad
-    cvs = [[blk["cv"]["v%d" % i][0] for i in range(c["natoms"])] for blk in U["steps"]]
+    if c.get("cvnames"):      # vector variables: all entries of the named variables
+        cvs = [[x for n in c["cvnames"] for x in blk["cv"][n]] for blk in U["steps"]]
+    else:
+        cvs = [[blk["cv"]["v%d" % i][0] for i in range(c["natoms"])] for blk in U["steps"]]
     lines = [TIE.model_line(c, K, cvs) for K in c["Ks"]]
     rc, out, err = V.run_lines(model_exe, lines)
     pre = os.path.join(d, "c%s_" % c["id"])
